@@ -205,10 +205,10 @@ func TestVerifE4Liveness(t *testing.T) {
 	env.Stop()
 }
 
-// TestVerifE4Unbounded (audit C28g; open known findings `unbounded-line-read`, `unbounded-http-body-read`):
-// a byte sequence without a newline on the TCP port, and a POST body that never ends on the HTTP port, are buffered
-// in full — `reader.ReadString('\n')` (lookup_protocol_v1.go:41) and `io.ReadAll(req.Body)`
-// (internal/http_api/req_params.go:21) have no limit. Deterministic observation, no timing oracle: the test
+// TestVerifE4Unbounded (audit C28g; open known finding `unbounded-line-read`, fixed finding `unbounded-http-body-read`):
+// a byte sequence without a newline on the TCP port is buffered in full — `reader.ReadString('\n')`
+// (lookup_protocol_v1.go:41) has no limit; a POST body that never ends on the HTTP port WAS buffered in full by
+// `io.ReadAll(req.Body)` in internal/http_api.NewReqParams until /repo 894b9eb (F33) and must not be any more. Deterministic observation, no timing oracle: the test
 // process contains the daemon; the client writes N bytes from ONE reused 64 KiB block (so the client side holds
 // nothing), waits until the daemon has taken them, forces a GC and reads the LIVE heap. The finding reproduces iff
 // the live heap grew by at least N/2 while the connection is still open and unanswered; a daemon with a bounded
